@@ -24,4 +24,34 @@ CLAIMS = {
         "note": TB + "The counter is the hook's; a loop the hook does not instrument would not be seen (the name walkers, the option loop and the record loops are instrumented).",
         "technique": "TLC invariant on the TLA+ parser machine's step counter + TLC validation of hook-counted steps of the real parser against the specified linear bound",
     },
+    "C03": {
+        "text": "TLC model-checks the section cursor (spec/Readers.tla: start offset + records-left counter, OPT skipping) for all sections of up to 5 records with OPT at every position: in bounds, counter exact, yields exactly the expected records, terminates; the pinned tree's missing decrement is kept as a negative control that TLC must detect. Then, for every accepted packet among TLA+-born packets (Gen_S1: all name-bearing types, three pointer layouts, OPT first/middle/last/absent, 0..2 options), generated, boundary and repository packets, the six walks and every accessor value logged by the driver are validated by TLC against Message!Decode (offsets, lower-case name, raw name, type, class, TTL, data length, data, address, section, option extents, bytes untouched).",
+        "design_ref": "DESIGN.md section 5, C03",
+        "note": TB + "Accessors are compared on accepted packets only (rejected inputs are outside the statement).",
+        "technique": "TLC model checking of a TLA+ cursor machine + TLC trace validation of every reader/accessor observation against the TLA+ decoder",
+    },
+    "C04": {
+        "text": "TLC checks on all 65 536 flag words that the field view, the mask view and the arithmetic view of the header word coincide (spec/Header.tla); every getter of the real library (tid, opcode, rcode, QR, 32-bit flags, DNSSEC indicator, question in three forms asked before and after the cache is filled, EDNS version / extended rcode / option count / payload size, section and EDNS offsets) is validated by TLC against Message!Summary on every accepted packet of the C03 corpus and on a sweep of flag words over six base packets (quick: 4096 seeded + all one-hot / all-but-one words; thorough: all 65 536) with and without OPT and with a question written through a pointer into the header.",
+        "design_ref": "DESIGN.md section 5, C04",
+        "note": TB,
+        "technique": "TLC exhaustive check of the header-word views + TLC trace validation of getter observations against the TLA+ summary",
+    },
+    "C05": {
+        "text": "For every accepted packet of the corpus (TLA+-born in three layouts, generated, boundary, repository packets) TLC validates the recorded result of uncompress against the post-condition written in TLA+: accepted by the policy, identical header, identical record sequence with byte-identical names/types/classes/TTLs and canonical data, no pointer in any understood name, unchanged by a second decompression; and for every record boundary of the input (start of every record including the question and OPT, and the end) the carried offset equals the same boundary of the output.",
+        "design_ref": "DESIGN.md section 5, C05",
+        "note": TB + "Offsets that are not record boundaries are outside the statement and not judged.",
+        "technique": "TLC trace validation of decompression results against a TLA+ post-condition (stateless events, all record boundaries)",
+    },
+    "C06": {
+        "text": "TLC model-checks the suffix-dictionary machine (spec/Compress.tla: 3 slots so that wrap-around and the pinned first slot are reached, MaxRefs = 2) over all sequences of up to 4 names: every dictionary entry resolves in the output to its suffix, the output is faithful, not longer, and needs no more than MaxRefs jumps; the two defects of the pinned tree (input-coordinate offsets, untracked chain depth) are negative controls TLC must detect. The real compress() is then run on accepted pointer-free packets (TLA+-born plain layout, generator, decompressed forms of compressed packets, families with nesting to depth 40, up to 70 distinct suffixes, 120..132-byte suffixes, names beyond offset 16383, mixed-case duplicates, OPT at every position) and TLC validates: accepted, not longer, same message up to case with the question byte-identical, OPT in place, and decompressing gives back the input up to case.",
+        "design_ref": "DESIGN.md section 5, C06",
+        "note": TB + "Which suffixes are shared and the exact output bytes are not compared.",
+        "technique": "TLC model checking of a TLA+ dictionary machine + TLC trace validation of compression results against a TLA+ post-condition",
+    },
+    "C07": {
+        "text": "The property-level function Rename!Replace on label sequences and a byte-level TLA+ transcription of replace_raw are shown equal by TLC on all (name, source, target, mode) over labels {a, A, ab} up to three labels (121 680 cases incl. overflow at a scaled limit). The real Renamer is run on accepted packets with (target, source, mode) drawn from the packet's own names at every label depth, case variants, partial-label near misses, self renames and overflowing targets; TLC validates each result: overflow iff some rewritten name exceeds 255 bytes, otherwise accepted output, identical skeleton (header, counts, order, types, classes, TTLs, opaque data, MX preference, SOA tail, OPT in place) and every name of the output equal, case-insensitively, to Replace of the corresponding input name; the input packet untouched.",
+        "design_ref": "DESIGN.md section 5, C07",
+        "note": TB + "Compression choices of the output and letter case are not compared.",
+        "technique": "TLC equivalence check of two TLA+ presentations of the replacement rule + TLC trace validation of rename results against a TLA+ post-condition",
+    },
 }
